@@ -26,7 +26,11 @@ type DAG struct {
 	Epoch   uint32
 	Events  []Event
 
-	anc []uint64
+	anc       []uint64
+	desc      []uint64 // descendants-or-self
+	byCreator []uint64
+	conflict  []uint64 // other events with the same creator and seq
+	forkVals  []uint64 // validators (bitmask) with a fork visible in anc(e)
 }
 
 func (d *DAG) N() int { return len(d.Events) }
@@ -52,6 +56,31 @@ func (d *DAG) Anc(e int) uint64 {
 				m |= d.anc[p]
 			}
 			d.anc[i] = m
+		}
+		// derived tables (pure functions of the graph, kept only to make the naive definitions fast)
+		n := len(d.Events)
+		d.desc = make([]uint64, n)
+		d.byCreator = make([]uint64, len(d.Weights))
+		d.conflict = make([]uint64, n)
+		d.forkVals = make([]uint64, n)
+		for i := 0; i < n; i++ {
+			d.byCreator[d.Events[i].Creator] |= 1 << uint(i)
+			for j := 0; j < n; j++ {
+				if d.anc[j]&(1<<uint(i)) != 0 {
+					d.desc[i] |= 1 << uint(j)
+				}
+				if j != i && d.Events[j].Creator == d.Events[i].Creator && d.Events[j].Seq == d.Events[i].Seq {
+					d.conflict[i] |= 1 << uint(j)
+				}
+			}
+		}
+		for i := 0; i < n; i++ {
+			for m := d.anc[i]; m != 0; m &= m - 1 {
+				x := bits.TrailingZeros64(m)
+				if d.conflict[x]&d.anc[i] != 0 {
+					d.forkVals[i] |= 1 << uint(d.Events[x].Creator)
+				}
+			}
 		}
 	}
 	return d.anc[e]
@@ -86,7 +115,8 @@ func (d *DAG) CanonOrder() []int {
 
 // ForkSeen: two different events of validator v with equal Seq among the ancestors-or-self of e.
 func (d *DAG) ForkSeen(e, v int) bool {
-	return d.forkIn(d.Anc(e), v)
+	d.Anc(e)
+	return d.forkVals[e]&(1<<uint(v)) != 0
 }
 
 func (d *DAG) forkIn(set uint64, v int) bool {
@@ -115,14 +145,8 @@ func (d *DAG) FC(a, b int) bool {
 		if d.ForkSeen(a, v) {
 			continue
 		}
-		ok := false
-		for m := ancA; m != 0 && !ok; m &= m - 1 {
-			x := bits.TrailingZeros64(m)
-			if d.Events[x].Creator == v && d.Anc(x)&(1<<uint(b)) != 0 {
-				ok = true
-			}
-		}
-		if ok {
+		// some event of v is a descendant-or-self of b and an ancestor-or-self of a
+		if ancA&d.desc[b]&d.byCreator[v] != 0 {
 			w += uint64(d.Weights[v])
 		}
 	}
@@ -236,6 +260,16 @@ type vote struct {
 	observed     int // root of the subject voted for (-1 none)
 }
 
+// Stats counts election situations met by the reference (vacuity guards for the explorers).
+type Stats struct {
+	Ties, SplitVotes, NoDecisions, AtroposNotFirst, LateDecisions, MultiSlotRoots int
+}
+
+var Stat Stats
+
+// MutTieNo flips the tie rule (used only by family-sensitivity experiments, never by checks).
+var MutTieNo bool
+
 type Decision struct {
 	Decided      bool
 	Atropos      int
@@ -293,6 +327,15 @@ func (d *DAG) Decide(set uint64, f int) Decision {
 			}
 		}
 		v.yes = yesW >= noW
+		if MutTieNo {
+			v.yes = yesW > noW
+		}
+		if yesW == noW {
+			Stat.Ties++
+		}
+		if yesW > 0 && noW > 0 {
+			Stat.SplitVotes++
+		}
 		if !v.yes {
 			v.observed = -1
 		}
@@ -333,14 +376,18 @@ func (d *DAG) Decide(set uint64, f int) Decision {
 	if incons != "" {
 		res.Inconsistent, res.Why = true, incons
 	}
-	for _, v := range d.CanonOrder() {
+	for k, v := range d.CanonOrder() {
 		if !decs[v].known {
 			return res
 		}
 		if decs[v].yes {
 			res.Decided, res.Atropos = true, decs[v].obs
+			if k > 0 {
+				Stat.AtroposNotFirst++
+			}
 			return res
 		}
+		Stat.NoDecisions++
 	}
 	res.Inconsistent, res.Why = true, "every validator decided no"
 	return res
